@@ -634,3 +634,33 @@ Proof.
     repeat match goal with E : (_ <? W) = true |- _ => rewrite E; clear E end; vsimpl;
     rewrite ?Hb, ?N.leb_refl; vsimpl; reflexivity.
 Qed.
+
+(* ---------- new_chunk: the layout asked of the global allocator, where the footer goes, the initial
+   finger and the running total — the fields of ArenaModel.new_chunk ---------- *)
+Lemma src_new_chunk_ok m data nswf size align ab a b c :
+  pow2 m -> m < W -> data + nswf < W -> ab + nswf < W ->
+  let en := List.app [("size", VN size); ("align", VN align); ("data", VN data);
+                      ("new_size_without_footer", VN nswf)] (cenv m) in
+  let args := [a; b; VRec [("allocated_bytes", VN ab)]] in
+  call_fn src_fns en "new_chunk_layout" [a; b; c]
+    = Ret (if layout_ok size align then vlayout (mkLayout size align) else VNone) /\
+  call_fn src_fns en "new_chunk_footer_at" [a; b; c] = Ret (VN (data + nswf)) /\
+  call_fn src_fns en "new_chunk_finger" [a; b; c] = Ret (VN (rdown (data + nswf) m)) /\
+  call_fn src_fns en "new_chunk_allocated_bytes" args = Ret (VN (ab + nswf)).
+Proof.
+  intros Hm Hmw Hd Ha en args. pose proof (pow2_pos _ Hm) as Hm0. unfold en, args.
+  assert (T1 : (data + nswf <? W) = true) by (apply N.ltb_lt; exact Hd).
+  assert (T2 : (ab + nswf <? W) = true) by (apply N.ltb_lt; exact Ha).
+  assert (T3 : (1 <=? m) = true) by (apply N.leb_le; lia).
+  repeat match goal with |- _ /\ _ => split end.
+  - unfold call_fn. rsimpl. destruct (layout_ok size align); rsimpl; reflexivity.
+  - unfold call_fn. rsimpl. rewrite T1. rsimpl. reflexivity.
+  - unfold call_fn. rsimpl. rewrite T1. rsimpl. rewrite T3. rsimpl.
+    change (N.land (data + nswf) (m - 1)) with (low_mask (data + nswf) m). rewrite mask_low by exact Hm.
+    f_equal. f_equal. unfold wsub. rewrite rdown_sub_mod by lia.
+    assert (Hmod : (data + nswf) mod m <= data + nswf) by (apply N.mod_le; lia).
+    generalize dependent ((data + nswf) mod m). intros r Hr.
+    replace (data + nswf + W - r) with ((data + nswf - r) + 1 * W) by lia.
+    rewrite N.mod_add by (unfold W; lia). apply N.mod_small. lia.
+  - unfold call_fn. rsimpl. rewrite T2. rsimpl. reflexivity.
+Qed.
